@@ -83,6 +83,18 @@ def obligations(tier):
                         'end_by_provider': False}, timeout=t, functions=F[14:16], stubs=loopkit.STUBS,
                   bounds='force_ssl_connect=True without SSL container; provider with / without TLS; handshake ok / fails',
                   claim='the constructor rejects the configuration (ValueError): no client is ever created'))
+    obs.append(Ob('C19.provider.foreign_shared_server', 'harness.C19', 'foreign_shared_server', timeout=t, functions=F,
+                  stubs=loopkit.STUBS,
+                  bounds='TLS-configured provider started on a shared HTTP server that has NO TLS context (application mistake); '
+                         'alternative hostname yes / no; consumer optional / enforced (4 configurations)',
+                  claim='the provider still advertises only https addresses (xaddrs, base_urls, every own URL in its messages): the '
+                        'scheme follows the provider\'s TLS configuration, never the server it was handed; an enforcing consumer '
+                        'constructs no plaintext connection'))
+    obs.append(Ob('C19.consumer.enforced_restart', 'harness.C19', 'enforced_restart', timeout=t, functions=F, stubs=loopkit.STUBS,
+                  bounds='consumer with force_ssl_connect through 2-3 start_all / stop_all cycles against a provider with / without '
+                         'TLS; stop with / without unsubscribe; alternative hostname yes / no (16 configurations)',
+                  claim='TLS enforcement survives stop_all / restart: in no cycle a plaintext connection is constructed or an http '
+                        'address advertised, and a plaintext provider is never connected'))
     obs.append(Ob('C19.certloader', 'harness.C19', 'cert_contexts', timeout=t, functions=F_CERT,
                   stubs=['repository test certificate tests/certificates/test_certificate.pem (self-signed) also serves as CA file'],
                   bounds='CA file present / absent x mk_ssl_contexts (cipher string given / not) / mk_ssl_contexts_from_folder (8 paths)',
